@@ -5,7 +5,7 @@
 import Ptx.Gen.L_KG3
 import Ptx.Gen.Known
 import Ptx.Sem.Subset
-import Ptx.Props.C01
+import Ptx.Props.C03
 import Ptx.Gen.L_G3
 namespace Ptx.Gen.Obl.KG3
 open Ptx
@@ -31,5 +31,10 @@ theorem c01_valid_sound (arg : Argument) (t : Tableau)
     (hd : Deriv Gen.KG3.sem.soundPart (trunk Gen.KG3.sem arg) t) (hclosed : t.allClosed = true)
     (M : Struct) (hM : M.Interp Gen.KG3.sem) (e : Env M.D) (w0 : M.W) : ¬ Countermodel Gen.KG3.sem M e w0 arg :=
   Props.C01.C01_valid_sound Gen.KG3.sem sound_core arg t hd hclosed M hM e w0
+
+/-- C03 (soundness half) for this logic: a closed tableau of a propositional argument is truth-table valid. -/
+theorem c03_closed_tt (arg : Argument) (hp : arg.isProp = true) (t : Tableau)
+    (hd : Deriv Gen.KG3.sem.soundPart (trunk Gen.KG3.sem arg) t) (hclosed : t.allClosed = true) : ttValid Gen.KG3.sem.T arg = true :=
+  Props.C03.C03_closed_implies_ttValid Gen.KG3.sem sound_core (by decide +kernel) arg hp t hd hclosed
 
 end Ptx.Gen.Obl.KG3
